@@ -124,6 +124,7 @@ func c13Ctor(c *Check, P string, fn *ssa.Function) {
 
 func c13Middleware(c *Check, P string, m *MW) {
 	I := m.Inner
+	MiddlewareStatePerCall(c, P+".O1", "poison queue", m)
 	// the poison queue settles nothing itself: whether the consumed message is acked follows from the error it returns
 	// (nil only after the poison publish succeeded) — an Ack of its own, before the publish, cannot be taken back
 	if recv := outermost(I).Signature.Recv(); recv != nil {
@@ -409,6 +410,14 @@ func firstOrigin(v ssa.Value) ssa.Value {
 func c13Delegation(fn *ssa.Function) *ssa.Call {
 	var call *ssa.Call
 	for _, r := range Returns(fn) {
+		// a failing return in front of the delegation (argument validation) is not part of it
+		if len(r.Results) == 2 && IsNilConst(r.Results[0]) && !IsNilConst(r.Results[1]) {
+			if _, isE := r.Results[1].(*ssa.Extract); !isE {
+				if _, isC := r.Results[1].(*ssa.Call); !isC {
+					continue
+				}
+			}
+		}
 		for _, v := range r.Results {
 			var c2 *ssa.Call
 			switch x := v.(type) {
